@@ -580,7 +580,7 @@ class Dict(dict, base.Symbolic, pg_typing.CustomTyping):
         and self.sym_parent.sym_path == self.sym_path):
       target = self.sym_parent
     return base.FieldUpdate(
-        self.sym_path + key, target, field, old_value, new_value)
+        utils.KeyPath(key, self.sym_path), target, field, old_value, new_value)
 
   def _formalized_value(
       self, name: Union[str, int],
